@@ -10,7 +10,7 @@ REPLAY_CRATE = os.path.join(VERIF, 'replay')
 _built = {}
 
 # which replay-crate family can search a concrete counterexample for a property
-FAMILY = {'C05': 'io', 'C06': 'io', 'C07': 'io', 'C19': 'io', 'C02': 'conv'}
+FAMILY = {'C05': 'io', 'C06': 'io', 'C07': 'io', 'C19': 'io', 'C02': 'conv', 'C01': 'fmt', 'C04': 'fmt'}
 
 
 def slug(name):
